@@ -164,7 +164,7 @@ NotAfter(c, n, t, o, chan2, devs) ==
 NotPending(c, n, t, why, tell, devs) ==
     LET c1 == IF why = "conn" THEN [c EXCEPT !.st = SetStatus(@, t, "temporary_unreachable")]
               ELSE IF why = "sub" THEN [c EXCEPT !.st = SetStatus(@, t, "subscription_error")] ELSE c
-    IN {NotAfter(c, n, t, o, IF tell /\ Known(c, t) THEN Tell(c, t, n.l) ELSE c.chan, devs) :
+    IN {NotAfter(c, n, t, o, IF tell /\ Known(c, t) /\ Ref(t, n.l) \in o.st.db.pend THEN Tell(c, t, n.l) ELSE c.chan, devs) :
             o \in Record(c1, t, n.l, "pending", 0)}
 
 \* a step of the handler that needs no tower: towers that are not reachable (by the copy) and refused connections
@@ -308,7 +308,8 @@ RunBegin(c, t) ==
 
 \* what the loop would send next: a registration renewal or one of its pending appointments
 RunCanSendReg(c, t, now) == Running(c, t) /\ c.rt[t].pc = "reg" /\ now >= c.rt[t].nbf
-RunCanSendAdd(c, t, l, now) == /\ Running(c, t) /\ c.rt[t].pc = "loop" /\ l \in c.rt[t].pend /\ l \in c.st.db.bodies
+Sendable(c, t, l) == l \in c.st.db.bodies /\ Ref(t, l) \in c.st.db.pend
+RunCanSendAdd(c, t, l, now) == /\ Running(c, t) /\ c.rt[t].pc = "loop" /\ l \in c.rt[t].pend /\ Sendable(c, t, l)
                                /\ ~c.poisoned /\ now >= c.rt[t].nbf
 
 RunSendReg(c, t, seq) == [c EXCEPT !.rt[t].pc = "regwait", !.rt[t].seq = seq]
@@ -320,7 +321,7 @@ RunSendAdd(c, t, l, seq) ==
 RunFail(c, t, ft, minb) == [c EXCEPT !.rt[t].pc = "fail", !.rt[t].cur = NoLoc, !.rt[t].rep = NoRep, !.rt[t].nf = IF @ < 2 THEN @ + 1 ELSE @,
                                      !.rt[t].nbf = ft + minb]
 
-\* no connection; the body of an appointment that is not stored any more cannot be sent (only after a deviation)
+\* steps of the loop that need no tower
 RunLocal(c, t) ==
     LET r == c.rt[t] IN
     IF ~Running(c, t) THEN {}
@@ -329,9 +330,12 @@ RunLocal(c, t) ==
          THEN (IF r.pend = {} THEN {[c EXCEPT !.rt[t].pc = "end_ok"]}
                ELSE IF c.poisoned THEN {RunDies(c, t)}
                ELSE (IF c.up[t] THEN {} ELSE {RunFail(c, t, 0, 0)})
-                    \cup (IF \E l \in r.pend : l \notin c.st.db.bodies
-                          THEN (IF c.dev # {} THEN {[RunDies(c, t) EXCEPT !.poisoned = TRUE]}
-                                ELSE {[c EXCEPT !.rt[t].pend = {l \in @ : l \in c.st.db.bodies}]})
+                    \* something that is not pending (any more) is not sent; a body that is gone cannot be (the code
+                    \* aborts on it: only reachable after another deviation)
+                    \cup (IF \E l \in r.pend : ~Sendable(c, t, l)
+                          THEN {[c EXCEPT !.rt[t].pend = {l \in @ : Sendable(c, t, l)}]}
+                               \cup (IF c.dev # {} /\ \E l \in r.pend : l \notin c.st.db.bodies
+                                     THEN {[RunDies(c, t) EXCEPT !.poisoned = TRUE]} ELSE {})
                           ELSE {}))
     ELSE {}
 
